@@ -63,6 +63,8 @@ struct Sk<'a> {
     notes: Vec<(String, usize, String)>,
     dropped: usize,
     used_hooks: Vec<String>,
+    /// immutable `let x = <expr>;` bindings of the function (bound exactly once): x -> tokens of <expr>
+    let_alias: HashMap<String, proc_macro2::TokenStream>,
 }
 
 fn nospace(e: &impl ToTokens) -> String {
@@ -114,6 +116,10 @@ impl<'a> Sk<'a> {
             "usize" => "nd_usize()".into(),
             t => format!("arb::<{t}>()"),
         }
+    }
+    /// S10: is this skeleton expression text a value of the abstract float type `Fl`?
+    fn is_fl(&self, t: &str) -> bool {
+        self.kept.get(t).map(|ty| ty == "Fl").unwrap_or(false) || t.starts_with("fl_") || t.starts_with("arb::<Fl>")
     }
     fn is_tracked_root(&self, e: &syn::Expr) -> Option<String> {
         match e {
@@ -188,10 +194,17 @@ impl<'a> Sk<'a> {
                     if self.kept.contains_key(&s) || self.tracked.contains_key(&s) {
                         return Ok(Some(s));
                     }
+                    // an immutable single-assignment local that names a kept expression (`let tol = opts.tol;`)
+                    if let Some(init) = self.let_alias.get(&s) {
+                        let key: String = init.to_string().split_whitespace().collect::<Vec<_>>().join("");
+                        if let Some(n) = self.alias.get(&key) {
+                            return Ok(Some(n.clone()));
+                        }
+                    }
                 }
                 Ok(None)
             }
-            Expr::Paren(p) => Ok(self.val(&p.expr, out)?.map(|t| format!("({t})"))),
+            Expr::Paren(p) => Ok(self.val(&p.expr, out)?.map(|t| if self.is_fl(&t) { t } else { format!("({t})") })),
             Expr::Group(g) => self.val(&g.expr, out),
             Expr::Reference(r) => {
                 let inner = self.val(&r.expr, out)?;
@@ -223,6 +236,23 @@ impl<'a> Sk<'a> {
                 let is_bool = |t: &Option<String>| t.as_ref().map(|x| x == "true" || x == "false" || self.kept.get(x).map(|ty| ty == "bool").unwrap_or(false)).unwrap_or(false);
                 if (op == "|" || op == "&") && (is_bool(&l) || is_bool(&r)) {
                     op = if op == "|" { "||".into() } else { "&&".into() };
+                }
+                // S10: comparisons and arithmetic on abstract floats; an erased operand is an arbitrary float
+                let lf = l.as_ref().map(|t| self.is_fl(t)).unwrap_or(false);
+                let rf = r.as_ref().map(|t| self.is_fl(t)).unwrap_or(false);
+                if lf || rf {
+                    let f = match op.as_str() {
+                        "<" => Some("fl_lt"), "<=" => Some("fl_le"), ">" => Some("fl_gt"), ">=" => Some("fl_ge"),
+                        "+" => Some("fl_add"), "-" => Some("fl_sub"), "*" => Some("fl_mul"), "/" => Some("fl_div"),
+                        _ => None,
+                    };
+                    if let Some(f) = f {
+                        let a = if lf { l.unwrap() } else { "arb::<Fl>()".to_string() };
+                        let c = if rf { r.unwrap() } else { "arb::<Fl>()".to_string() };
+                        self.note("S10", e.span(), "float comparison/arithmetic kept over abstract reals");
+                        return Ok(Some(format!("{f}({a}, {c})")));
+                    }
+                    return Ok(None);
                 }
                 match (l, r) {
                     (Some(a), Some(c)) if !op.ends_with('=') || ["==", "!=", "<=", ">="].contains(&op.as_str()) => Ok(Some(format!("{a} {op} {c}"))),
@@ -280,6 +310,15 @@ impl<'a> Sk<'a> {
                         "construct outside rule list (skeleton): method `.{name}()` on tracked object `{root}` is neither an event nor declared read-only (line {})",
                         self.line(e.span())
                     ));
+                }
+                // S10: |x| of an abstract float
+                if name == "abs" && m.args.is_empty() {
+                    if let Some(t) = self.val(&m.receiver, out)? {
+                        if self.is_fl(&t) {
+                            return Ok(Some(format!("fl_abs({t})")));
+                        }
+                    }
+                    return Ok(None);
                 }
                 // result/option predicates on kept values
                 if ["is_ok", "is_err", "is_some", "is_none"].contains(&name.as_str()) {
@@ -715,34 +754,79 @@ impl<'a> Sk<'a> {
         }
     }
 
-    /// does `cond == true` imply that the test described by `pat` passed?  (`pat` must be a conjunct)
-    fn cond_implies(cond: &syn::Expr, pat: &[pattern::Pat], when: bool) -> bool {
+    /// does `cond == true` imply that the test described by `pat` passed?  (`pat` must match a whole
+    /// conjunct: `a * x < tol` is not the test `x < tol`.)  Accepted as the same test: the mirrored
+    /// comparison (`tol > x`), parentheses, and a local that is an immutable alias of a sub-expression
+    /// of the pattern (`let tol = opts.tol; .. x < tol` for the pattern `x < opts.tol`).
+    fn cond_implies(&self, cond: &syn::Expr, pat: &[pattern::Pat], when: bool) -> bool {
         match cond {
-            syn::Expr::Paren(p) => Self::cond_implies(&p.expr, pat, when),
+            syn::Expr::Paren(p) => self.cond_implies(&p.expr, pat, when),
             syn::Expr::Binary(b) if matches!(b.op, syn::BinOp::And(_)) => {
                 if when {
-                    Self::cond_implies(&b.left, pat, when) || Self::cond_implies(&b.right, pat, when)
+                    self.cond_implies(&b.left, pat, when) || self.cond_implies(&b.right, pat, when)
                 } else {
-                    Self::cond_implies(&b.left, pat, when) && Self::cond_implies(&b.right, pat, when)
+                    self.cond_implies(&b.left, pat, when) && self.cond_implies(&b.right, pat, when)
                 }
             }
             syn::Expr::Binary(b) if matches!(b.op, syn::BinOp::Or(_)) => {
                 if when {
-                    Self::cond_implies(&b.left, pat, when) && Self::cond_implies(&b.right, pat, when)
+                    self.cond_implies(&b.left, pat, when) && self.cond_implies(&b.right, pat, when)
                 } else {
-                    Self::cond_implies(&b.left, pat, when) || Self::cond_implies(&b.right, pat, when)
+                    self.cond_implies(&b.left, pat, when) || self.cond_implies(&b.right, pat, when)
                 }
             }
             syn::Expr::Unary(u) if matches!(u.op, syn::UnOp::Not(_)) => false,
-            other => pattern::contains(pat, other.to_token_stream()),
+            other => {
+                let mut forms: Vec<proc_macro2::TokenStream> = vec![other.to_token_stream()];
+                if let syn::Expr::Binary(b) = other {
+                    let (l, r) = (&b.left, &b.right);
+                    match b.op {
+                        syn::BinOp::Gt(_) => forms.push(quote::quote!(#r < #l)),
+                        syn::BinOp::Lt(_) => forms.push(quote::quote!(#r > #l)),
+                        syn::BinOp::Ge(_) => forms.push(quote::quote!(#r <= #l)),
+                        syn::BinOp::Le(_) => forms.push(quote::quote!(#r >= #l)),
+                        _ => {}
+                    }
+                }
+                let mut all = Vec::new();
+                for f in forms {
+                    all.push(self.expand_aliases(f.clone()));
+                    all.push(f);
+                }
+                all.into_iter().any(|f| pattern::matches(pat, f, &mut pattern::Bindings::new()))
+            }
         }
+    }
+
+    /// replace every identifier that is an immutable single-assignment `let` alias by its initialiser
+    fn expand_aliases(&self, ts: proc_macro2::TokenStream) -> proc_macro2::TokenStream {
+        use proc_macro2::TokenTree;
+        let mut out = proc_macro2::TokenStream::new();
+        let toks: Vec<TokenTree> = ts.into_iter().collect();
+        for (k, t) in toks.iter().enumerate() {
+            match t {
+                TokenTree::Ident(id) => {
+                    let after_dot = k > 0 && matches!(&toks[k - 1], TokenTree::Punct(p) if p.as_char() == '.');
+                    match self.let_alias.get(&id.to_string()) {
+                        Some(init) if !after_dot => out.extend(init.clone()),
+                        _ => out.extend(std::iter::once(t.clone())),
+                    }
+                }
+                TokenTree::Group(g) => {
+                    let inner = self.expand_aliases(g.stream());
+                    out.extend(std::iter::once(TokenTree::Group(proc_macro2::Group::new(g.delimiter(), inner))));
+                }
+                _ => out.extend(std::iter::once(t.clone())),
+            }
+        }
+        out
     }
 
     fn cond_with_hooks(&mut self, i: &syn::ExprIf, pre: &mut Vec<String>) -> R<(String, Vec<String>)> {
         let c = self.cond(&i.cond, pre)?;
         let mut hooks = Vec::new();
         for (pat, stmt, raw) in self.on_then.clone() {
-            if Self::cond_implies(&i.cond, &pat, true) {
+            if self.cond_implies(&i.cond, &pat, true) {
                 hooks.push(format!("{stmt} // hook: then `{raw}`"));
                 self.used_hooks.push(format!("then {raw}"));
             }
@@ -1021,7 +1105,7 @@ impl<'a> Sk<'a> {
                 let mut einner = Vec::new();
                 {
                     for (pat, stmt, raw) in self.on_else.clone() {
-                        if Self::cond_implies(&i.cond, &pat, false) {
+                        if self.cond_implies(&i.cond, &pat, false) {
                             einner.push(format!("{stmt} // hook: else `{raw}`"));
                             self.used_hooks.push(format!("else {raw}"));
                         }
@@ -1343,6 +1427,7 @@ pub fn skeleton_fn(ctx: &mut Ctx, blk: &Block) -> Result<(String, Value), String
         notes: vec![],
         dropped: 0,
         used_hooks: vec![],
+        let_alias: HashMap::new(),
     };
     let mut params_text = String::new();
     let mut declared_hooks: Vec<String> = Vec::new();
@@ -1479,6 +1564,40 @@ pub fn skeleton_fn(ctx: &mut Ctx, blk: &Block) -> Result<(String, Value), String
             if !b.0.contains(&n) && !is_param && !aliased.contains(&n) {
                 body.push(format!("let mut {n}: {ty} = {}; // kept variable not bound by the function: arbitrary", sk.nd_of(&ty)));
                 sk.notes.push(("S8".into(), 0, format!("kept variable `{n}` is not bound by the function: arbitrary value")));
+            }
+        }
+    }
+    {
+        // immutable single-assignment `let x = <expr>;` bindings: candidates for alias expansion
+        struct Lets(HashMap<String, Vec<Option<proc_macro2::TokenStream>>>);
+        impl<'ast> syn::visit::Visit<'ast> for Lets {
+            fn visit_local(&mut self, l: &'ast syn::Local) {
+                let pat = match &l.pat { syn::Pat::Type(t) => &*t.pat, p => p };
+                if let (syn::Pat::Ident(id), Some(init)) = (pat, &l.init) {
+                    if id.mutability.is_none() && id.by_ref.is_none() && init.diverge.is_none() {
+                        self.0.entry(id.ident.to_string()).or_default().push(Some(init.expr.to_token_stream()));
+                        syn::visit::visit_expr(self, &init.expr);
+                        return;
+                    }
+                }
+                syn::visit::visit_local(self, l);
+            }
+            fn visit_pat_ident(&mut self, i: &'ast syn::PatIdent) {
+                self.0.entry(i.ident.to_string()).or_default().push(None);
+            }
+        }
+        let mut l = Lets(HashMap::new());
+        syn::visit::Visit::visit_block(&mut l, f.block);
+        for inp in &f.sig.inputs {
+            if let syn::FnArg::Typed(pt) = inp {
+                syn::visit::Visit::visit_pat(&mut l, &pt.pat);
+            }
+        }
+        for (n, v) in l.0 {
+            if v.len() == 1 {
+                if let Some(ts) = &v[0] {
+                    sk.let_alias.insert(n, ts.clone());
+                }
             }
         }
     }
